@@ -45,8 +45,8 @@ CLAIMED.update({
     "C10": dict(cat="model_checking", ref="DESIGN.md 4.4, 5/C10", note=RB_NOTE,
                 text="The spec carries every component attribute; TLC checks defaults-at-iteration-start and plain-attributes-untouched exhaustively (bounded) with scripted writes from any callback, a 'reset_skipped' mutation is caught; in validated histories every callback logs a snapshot of all marked and unmarked attributes of all components, compared by TLC with the spec state (incl. inherited markers, several markers, faults under FMS).",
                 tech="TLA+ spec MagicRobot + TLC exhaustive invariants; TLC batch trace validation with attribute snapshots; simulated behaviours replayed"),
-    "C11": dict(cat="model_checking", ref="DESIGN.md 4.4/4.6, 5/C11", note=RB_NOTE + " This check covers freshness/exactly-once/per-mode/raising getters with int-typed getters and both key derivations; topic typing for other return hints is not covered by it.",
-                text="The spec publishes the scripted return value of each getter exactly once per iteration in every mode (any order inside the feedback phase) and leaves the entry alone when the getter raises; TLC checks all-published-every-mode (mutation 'feedback_skipped_in_disabled' caught) and validates, at every wait of recorded histories, the values read back through NetworkTables for robot- and component-level getters (get_ prefix and explicit key=).",
+    "C11": dict(cat="model_checking", ref="DESIGN.md 4.4/4.6, 5/C11", note=RB_NOTE + "",
+                text="The spec publishes the scripted return value of each getter exactly once per iteration in every mode (any order inside the feedback phase) and leaves the entry alone when the getter raises; TLC checks all-published-every-mode (mutation 'feedback_skipped_in_disabled' caught) and validates, at every wait of recorded histories, the values and topic type strings read back through NetworkTables for robot- and component-level getters (get_ prefix, explicit key=, keys containing get_), for every supported return hint (scalars, list/Sequence/variadic-tuple arrays, struct, struct arrays) and un-hinted getters; a spec-free monitor checks exactly-once per iteration.",
                 tech="TLA+ spec MagicRobot + TLC exhaustive invariants; TLC batch trace validation with NetworkTables read-back; simulated behaviours replayed"),
 })
 CLAIMED.update({
